@@ -340,7 +340,9 @@ def pack_union(
     with lines.indent():
         for packer in packers:
             packer_arg_type_names = []
-            for packer_arg_type in packer_arg_types[packer]:
+            arg_types = list(packer_arg_types[packer])
+            while arg_types:
+                packer_arg_type = arg_types.pop(0)
                 # value.__class__ is never a NewType or a type alias
                 while True:
                     if is_new_type(packer_arg_type):
@@ -351,6 +353,10 @@ def pack_union(
                         packer_arg_type = get_type_origin(packer_arg_type)
                     else:
                         break
+                if is_union(packer_arg_type):
+                    # an alias of a union: the classes of its members
+                    arg_types[:0] = get_args(packer_arg_type)
+                    continue
                 if is_generic(packer_arg_type):
                     packer_arg_type = get_type_origin(packer_arg_type)
                 packer_arg_type_name = clean_id(type_name(packer_arg_type))
